@@ -18,9 +18,9 @@ namespace Drand.Net.Reshare
 /-- in a well-formed state in which no node is ahead of `h`, `Quiet` holds for every set of nodes that hold epoch `e` -/
 theorem quiet_of_sane {nxt : Nat → Option Nat} {s : State} (hs : Sane nxt s) (U : List Nat) (h e : Nat)
     (hh : ∀ k, (s.node k).head ≤ h) (he : ∀ j ∈ U, (s.node j).vault.epoch = e) : Quiet s U h e := by
-  refine ⟨fun m hm _ _ _ => ?_, fun j hj _ k x hx => ?_⟩
+  refine ⟨fun m hm _ _ _ => ?_, fun j hj hrep k x hx => ?_⟩
   · exact (hs.msgs m hm).2.1 h hh
-  · rw [← he j hj]; exact (hs.node j).heldE _ k x hx
+  · rw [← he j hj]; exact (hs.node j).heldE hrep _ k x hx
 
 /-- **`Quiet` from reachability.** `nxt` is the resharing schedule (`nxt x = some t`: epoch `x` ends at round `t`). From a
 well-formed state `s0` (`Sane nxt s0`; the driver's initial states are: `sane_init`), after ANY finite list of events —
@@ -39,6 +39,143 @@ theorem c07_quiet_of_reachable (nxt : Nat → Option Nat) (s0 : State) (h0 : San
 /-- the driver's initial states are well-formed -/
 example (nxt : Nat → Option Nat) (cfg : Cfg) (n nIdx : Nat) (g : Grp) : Sane nxt (State.init cfg n nIdx g) :=
   sane_init nxt cfg n nIdx g
+
+/-! #### the repaired variant: no discipline on who signs what -/
+
+/-- every node runs the "newest wins" cache (`State.init` with `cfg.replaceSameIndex = true`; joins and restarts keep it) -/
+def AllRep (s : State) : Prop := ∀ k, (s.node k).replace = true
+
+theorem tickStep_replace (B i : Nat) (d : Node) : (d.tickStep B i).1.replace = d.replace := by
+  by_cases hu : d.up = true
+  · rcases tickStep_node B i d hu with he | ⟨v, he⟩ <;> rw [he]
+    · exact aggregate_replace B (d.setTick d.clock) _ _ _
+    · exact aggregate_replace B (d.setTick d.clock) _ _ _
+  · rw [tickStep_down B i d hu]
+
+theorem fireStep_replace (B i : Nat) (d : Node) : (d.fireStep B i).1.replace = d.replace := by
+  rcases fireStep_cases B i d with he | ⟨_, r, rest, _, he⟩ <;> rw [he]
+  exact aggregate_replace B (d.setPending rest) _ _ _
+
+theorem recvStep_replace (B self : Nat) (reach : Bool) (d : Node) (m : Msg) : (d.recvStep B self reach m).replace = d.replace := by
+  rcases recvStep_cases B self reach d m with ⟨he, _⟩ | ⟨_, _, _, he⟩ <;> rw [he]
+  exact aggregate_replace B d _ _ _
+
+theorem foldl_put_replace : ∀ (l : List Nat) (d : Node), (l.foldl Node.put d).replace = d.replace := by
+  intro l
+  induction l with
+  | nil => intro d; rfl
+  | cons a t ih => intro d; exact (ih (d.put a)).trans (put_replace d a)
+
+theorem appendTo_replace (d : Node) (t : Nat) : (d.appendTo t).replace = d.replace := by
+  unfold Node.appendTo
+  exact foldl_put_replace _ d
+
+theorem act_replace (s : State) (i : Nat) (F : Node → Node × List Msg) (h : (F (s.node i)).1.replace = (s.node i).replace) (k : Nat) :
+    ((s.act i F).node k).replace = (s.node k).replace := by
+  rw [act_node]
+  by_cases hk : k = i
+  · rw [hk]; simp only [if_true]; exact h
+  · simp only [hk, if_false]
+
+theorem foldl_recv_replace (k : Nat) : ∀ (l : List Msg) (s : State), ((l.foldl State.recv s).node k).replace = (s.node k).replace := by
+  intro l
+  induction l with
+  | nil => intro s; rfl
+  | cons m t ih => intro s; exact (ih (s.recv m)).trans (act_replace s m.dst _ (recvStep_replace _ _ _ _ _) k)
+
+/-- no event changes which cache variant a node runs -/
+theorem replace_apply (s : State) (ev : Ev) (k : Nat) : ((s.apply ev).node k).replace = (s.node k).replace := by
+  cases ev with
+  | advance => rfl
+  | tick i => exact act_replace s i _ (tickStep_replace _ _ _) k
+  | fire i => exact act_replace s i _ (fireStep_replace _ _ _) k
+  | deliver j =>
+    simp only [State.apply]
+    cases hm : s.msgs[j]? with
+    | none => rfl
+    | some m => exact act_replace { s with msgs := s.msgs.eraseIdx j } m.dst _ (recvStep_replace _ _ _ _ _) k
+  | drop j => rfl
+  | deliverAll => exact foldl_recv_replace k s.msgs _
+  | pull i =>
+    rcases pull_cases s i with he | he | ⟨_, _, v, he⟩
+    · show ((s.pull i).node k).replace = _; rw [he]
+    · show ((s.pull i).node k).replace = _
+      rw [he, setNode_node]; by_cases hk : k = i <;> simp [hk]
+    · show ((s.pull i).node k).replace = _
+      rw [he, setNode_node]
+      by_cases hk : k = i
+      · simp only [hk, if_true, setSync_replace]; exact appendTo_replace _ _
+      · simp [hk]
+  | stop i => simp only [State.apply, State.stop, setNode_node]; by_cases hk : k = i <;> simp [hk]
+  | restart i =>
+    simp only [State.apply, State.restart]
+    split
+    · rfl
+    · rw [setNode_node]; by_cases hk : k = i <;> simp [hk]
+  | setConn c => rfl
+  | send m => rfl
+  | announce i v t =>
+    simp only [State.apply, setNode_node]
+    by_cases hk : k = i
+    · simp only [hk, if_true]
+      unfold Node.announce
+      by_cases hu : (s.node i).up = true
+      · by_cases hc : (s.cfg.lateSwitch && decide (Gen.transitionTarget t ≤ (s.node i).head)) = true <;> simp [hu, hc]
+      · simp [hu]
+    · simp [hk]
+  | join i v =>
+    simp only [State.apply, State.join]
+    split
+    · rfl
+    · rw [setNode_node]; by_cases hk : k = i <;> simp [hk]
+
+/-- the only thing asked of an event list in the repaired variant: a packet put on the wire by anybody (`send`) is a partial
+SOME share holder of SOME epoch could have made — not beyond the clock, at most one round above every bound on the heads.
+Who signs what with which share, who was told when, who stopped: free. -/
+def Ev.replay (s : State) : Ev → Prop
+  | .send m => m.round ≤ clk s ∧ BR (heads s) m.round
+  | _ => True
+
+def Replays : State → List Ev → Prop
+  | _, [] => True
+  | s, e :: t => e.replay s ∧ Replays (s.apply e) t
+
+theorem sched_of_replays : ∀ (evs : List Ev) (s : State), AllRep s → Replays s evs → Sched (fun _ => none) s evs := by
+  intro evs
+  induction evs with
+  | nil => intro s _ _; trivial
+  | cons e t ih =>
+    intro s hrep hr
+    refine ⟨?_, ih (s.apply e) (fun k => (replace_apply s e k).trans (hrep k)) hr.2⟩
+    cases e with
+    | tick i => exact fun _ t ht => by cases ht
+    | fire i => exact fun _ _ _ _ t ht => by cases ht
+    | send m => exact ⟨hr.1.1, hr.1.2, fun t ht => by cases ht⟩
+    | announce i v t => exact fun _ hf => by rw [hrep i] at hf; cases hf
+    | _ => trivial
+
+/-- **`Quiet` from reachability, repaired variant ("newest wins").** No restricting clause: from a well-formed state in which
+every node runs the repaired cache, after ANY finite list of events — leavers that keep signing with their old shares,
+nodes never told, hand-overs at any time, stops, restarts, partitions, deliveries in any order, replayed packets — if no
+node is ahead of `h` then `Quiet` holds for every `U`: no partial is in flight above `h + 1`, and nothing is asked of the
+caches (a stale partial on a member's index is overwritten by that member's partial). -/
+theorem c07_quiet_of_reachable_repaired (s0 : State) (h0 : Sane (fun _ => none) s0) (hrep : AllRep s0) (evs : List Ev)
+    (hr : Replays s0 evs) (U : List Nat) (h e : Nat) (hh : ∀ k, ((s0.run evs).node k).head ≤ h) :
+    Quiet (s0.run evs) U h e := by
+  have hs := sane_run evs s0 h0 (sched_of_replays evs s0 hrep hr)
+  have hrep' : AllRep (s0.run evs) := by
+    have : ∀ (l : List Ev) (s : State), AllRep s → AllRep (s.run l) := by
+      intro l
+      induction l with
+      | nil => intro s h; exact h
+      | cons a t ih => intro s h; exact ih _ (fun k => (replace_apply s a k).trans (h k))
+    exact this evs s0 hrep
+  exact ⟨fun m hm _ _ _ => (hs.msgs m hm).2.1 h hh, fun j _ hf => by rw [hrep' j] at hf; cases hf⟩
+
+/-- the driver's initial states with the repaired cache -/
+example (cfg : Cfg) (hc : cfg.replaceSameIndex = true) (n nIdx : Nat) (g : Grp) :
+    Sane (fun _ => none) (State.init cfg n nIdx g) ∧ AllRep (State.init cfg n nIdx g) :=
+  ⟨sane_init _ cfg n nIdx g, fun k => by simp only [State.init]; split <;> exact hc⟩
 
 /-- a node that was told (`Told v t`) and still runs on its previous vault has not stored `t − 1` yet: whatever it signs
 next is below the transition round -/
@@ -123,7 +260,7 @@ theorem c07_quiet_counterexample :
     (∀ k ∈ [1, 2], ((cxFinal true).fairTick.node k).head = 2 ∧ ((cxFinal true).fairTick.fairTick.fairTick.node k).head = 4) := by
   have hheld : (cxFinal.node 1).held 2 0 = some 0 := by decide
   refine ⟨?_, ?_, by decide, by decide, by decide, by decide, hheld, by decide, ?_, by decide, by decide, by decide, by decide⟩
-  · refine ⟨fun _ => by decide, fun _ => by decide, trivial, fun _ => (cx_inlife _ _).mpr (by decide),
+  · refine ⟨fun _ _ => by decide, fun _ _ => by decide, trivial, fun _ => (cx_inlife _ _).mpr (by decide),
       fun _ => (cx_inlife _ _).mpr (by decide), fun _ => (cx_inlife _ _).mpr (by decide), trivial, trivial, trivial⟩
   · intro h
     have h1 := (cx_inlife _ _).mp (h (by decide)) (by decide)
@@ -132,5 +269,9 @@ theorem c07_quiet_counterexample :
   · intro hq
     have := hq.2 1 (by simp) (by decide) 0 0 hheld
     cases this
+
+/-- the event list of `c07_quiet_counterexample` — the leaver's tick included — meets the hypotheses in the repaired variant -/
+example : Replays (cxInit true) cxEvs := by
+  refine ⟨trivial, trivial, trivial, trivial, trivial, trivial, trivial, trivial, trivial, trivial, trivial, trivial, trivial⟩
 
 end Drand.Net.Reshare
